@@ -32,6 +32,7 @@ func main() {
 		Rule: "each case = one scenario on a real loopback server (standard or netpoll transport): 0..4 connections busy inside a gated handler, 0..3 idle keep-alive connections, 0..2 connections mid-request (head sent, body withheld), optionally a pipelined pair; Shutdown is called once all busy handlers are entered; gates are released before / shortly after / well after the call (always inside the exit wait); exit wait 300 ms / 800 ms / 2 s; hooks fast, slow and beyond the deadline; afterwards a new dial, a second Shutdown, and separately Shutdown of a never-run server; " +
 			"an event log (handler entered, shutdown called/returned, hook start/end, gate released, response parsed) is judged by the order-and-bound checker; distinct = hash of the scenario parameters; non-trivial = at least one busy connection plus one other connection state",
 		Assumptions: []string{
+			"order clause: the response of a request that was in flight (or of a connection already accepted) when Shutdown was called is complete no later than 25 ms after Shutdown returns, unless Shutdown ran into the exit-wait deadline",
 			"handler progress is controlled by gates (channels), only the bounds use the clock: Shutdown must return within ExitWaitTime + 2 s, second/never-run Shutdown within 2 s",
 			"a hook that outlives the deadline may still be running when Shutdown returns (hooks run, the wait is bounded)",
 			"a mid-request connection (body not yet sent when shutdown begins) may be answered completely or closed without any response byte; a truncated response is a violation",
@@ -72,6 +73,7 @@ type scen struct {
 	Pipelined bool
 	Release   string // before, soon, late
 	Hooks     []string
+	HookConn  bool // standard transport: a connection sits in a slow OnConnect hook when Shutdown is called
 }
 
 // readAll reads until EOF/error with a deadline and returns what arrived.
@@ -82,13 +84,54 @@ func readAll(c net.Conn, d time.Duration) []byte {
 	return buf.Bytes()
 }
 
+// readResp reads until EOF/error or the deadline and reports when the bytes received so
+// far first formed `want` complete final responses (zero time if never).
+func readResp(c net.Conn, d time.Duration, methods []string, want int) ([]byte, time.Time) {
+	deadline := time.Now().Add(d)
+	var data []byte
+	var completeAt time.Time
+	buf := make([]byte, 32<<10)
+	for time.Now().Before(deadline) {
+		c.SetReadDeadline(time.Now().Add(20 * time.Millisecond))
+		n, err := c.Read(buf)
+		data = append(data, buf[:n]...)
+		if n > 0 && completeAt.IsZero() {
+			if ms, perr := wire.ParseResponses(data, methods, false); perr == nil {
+				k := 0
+				for _, m := range ms {
+					if m.Status >= 200 {
+						k++
+					}
+				}
+				if k >= want {
+					completeAt = time.Now()
+				}
+			}
+		}
+		if err != nil {
+			if ne, ok := err.(net.Error); ok && ne.Timeout() {
+				continue
+			}
+			break
+		}
+	}
+	return data, completeAt
+}
+
 func oneScenario(w *mon.W, c *mon.Case) {
 	r := c.R
 	s := scen{Netpoll: r.Bool(), ExitWait: []time.Duration{300 * time.Millisecond, 800 * time.Millisecond, 2 * time.Second}[r.Intn(w.Pick(2, 3))], Busy: r.Intn(5), Idle: r.Intn(4), Mid: r.Intn(3), Pipelined: r.Chance(3), Release: r.Str("before", "soon", "soon", "late")}
 	for k := r.Intn(4); k > 0; k-- {
 		s.Hooks = append(s.Hooks, r.Str("fast", "slow", "beyond"))
 	}
+	s.HookConn = !s.Netpoll && r.Chance(3)
+	if s.HookConn && r.Bool() {
+		// nothing else keeps the server busy: only the connection inside the hook
+		s.Busy, s.Idle, s.Mid, s.Pipelined = 0, 0, 0, false
+	}
 	c.Detail = func() interface{} { return s }
+	var hookArmed, acceptedN int32
+	inHook := make(chan struct{}, 4)
 	var h *server.Hertz
 	var addr string
 	var runErr chan error
@@ -100,7 +143,21 @@ func oneScenario(w *mon.W, c *mon.Case) {
 		if s.Netpoll {
 			tr = netpoll.NewTransporter
 		}
-		h = server.New(server.WithHostPorts(addr), server.WithTransport(tr), server.WithExitWaitTime(s.ExitWait), server.WithDisablePrintRoute(true))
+		sopts := []config.Option{server.WithHostPorts(addr), server.WithTransport(tr), server.WithExitWaitTime(s.ExitWait), server.WithDisablePrintRoute(true)}
+		if s.HookConn {
+			sopts = append(sopts, server.WithOnConnect(func(ctx context.Context, c network.Conn) context.Context {
+				atomic.AddInt32(&acceptedN, 1)
+				if atomic.LoadInt32(&hookArmed) == 1 {
+					select {
+					case inHook <- struct{}{}:
+					default:
+					}
+					time.Sleep(80 * time.Millisecond)
+				}
+				return ctx
+			}))
+		}
+		h = server.New(sopts...)
 		runErr = make(chan error, 1)
 		started = true
 		break
@@ -167,8 +224,9 @@ func oneScenario(w *mon.W, c *mon.Case) {
 	}
 	// --- connections
 	type busyRes struct {
-		out []byte
-		err string
+		out        []byte
+		err        string
+		completeAt time.Time
 	}
 	var wg sync.WaitGroup
 	nBusyConns := s.Busy
@@ -189,7 +247,11 @@ func oneScenario(w *mon.W, c *mon.Case) {
 				req += "GET /quick HTTP/1.1\r\nHost: x\r\n\r\n"
 			}
 			io.WriteString(cn, req)
-			results[i].out = readAll(cn, s.ExitWait+6*time.Second)
+			ms := []string{"POST"}
+			if pipe {
+				ms = append(ms, "GET")
+			}
+			results[i].out, results[i].completeAt = readResp(cn, s.ExitWait+6*time.Second, ms, 1)
 		}(i)
 	}
 	idle := make([]net.Conn, 0, s.Idle)
@@ -227,6 +289,41 @@ func oneScenario(w *mon.W, c *mon.Case) {
 	if s.Release == "before" {
 		close(gate)
 		time.Sleep(20 * time.Millisecond)
+	}
+	// a connection that has been accepted and sits in a slow OnConnect hook, its request
+	// already sent, at the moment Shutdown is called (constructed with a signal from the hook)
+	var hookOut []byte
+	var hookCompleteAt time.Time
+	hookConnDone := make(chan struct{})
+	hookActive := false
+	if s.HookConn {
+		// every connection dialled so far must have left the accept queue before the hook is
+		// armed, otherwise the signal could come from one of them (a dial returns when the
+		// kernel has queued the connection, not when the server has accepted it)
+		dialled := int32(1 + nBusyConns + len(idle) + len(mid)) // 1 = the readiness probe
+		for t := time.Now(); atomic.LoadInt32(&acceptedN) < dialled && time.Since(t) < 2*time.Second; {
+			time.Sleep(time.Millisecond)
+		}
+		atomic.StoreInt32(&hookArmed, 1)
+		go func() {
+			defer close(hookConnDone)
+			cn, err := net.Dial("tcp", addr)
+			if err != nil {
+				return
+			}
+			defer cn.Close()
+			io.WriteString(cn, "GET /quick HTTP/1.1\r\nHost: x\r\n\r\n")
+			hookOut, hookCompleteAt = readResp(cn, s.ExitWait+4*time.Second, []string{"GET"}, 1)
+		}()
+		select {
+		case <-inHook:
+			hookActive = true
+		case <-time.After(2 * time.Second):
+			w.Note("hook connection was not accepted within 2 s; clause skipped")
+		}
+		atomic.StoreInt32(&hookArmed, 0)
+	} else {
+		close(hookConnDone)
 	}
 	t0 := time.Now()
 	atomic.StoreInt32(&shutdownBegan, 1)
@@ -272,6 +369,7 @@ func oneScenario(w *mon.W, c *mon.Case) {
 		return
 	}
 	dur := time.Since(t0)
+	tReturned := time.Now()
 	_ = sdErr
 	if dur > s.ExitWait+2*time.Second {
 		fail("shutdown-bound", "Shutdown took %v with ExitWaitTime %v", dur.Round(time.Millisecond), s.ExitWait)
@@ -350,6 +448,10 @@ func oneScenario(w *mon.W, c *mon.Case) {
 			fail("no-connection-close", "the handler of in-flight request %d returned after shutdown began but its response lacks Connection: close (fields %v)", i, m.Fields)
 			return
 		}
+		if dur < s.ExitWait-20*time.Millisecond && (res.completeAt.IsZero() || res.completeAt.After(tReturned.Add(25*time.Millisecond))) {
+			fail("returned-before-inflight-finished", "Shutdown returned after %v (ExitWaitTime %v) but the response of in-flight request %d was only complete %v later", dur.Round(time.Millisecond), s.ExitWait, i, res.completeAt.Sub(tReturned).Round(time.Millisecond))
+			return
+		}
 		w.Count("busy_responses_checked", 1)
 	}
 	// mid-request connections: complete response or nothing
@@ -366,6 +468,21 @@ func oneScenario(w *mon.W, c *mon.Case) {
 			return
 		}
 		w.Count("mid_answered", 1)
+	}
+	<-hookConnDone
+	if hookActive {
+		msgs, err := wire.ParseResponses(hookOut, []string{"GET"}, true)
+		if err != nil || len(msgs) != 1 || msgs[0].Status != 200 || string(msgs[0].Body) != "quick" {
+			fail("hook-connection-dropped", "a connection that had been accepted (it was inside the OnConnect hook, its request already sent) when Shutdown was called got no complete response: %v, %d bytes received", err, len(hookOut))
+			return
+		}
+		w.Count("hook_connections_answered", 1)
+		// in-flight work finishes *before* Shutdown returns (unless the exit wait ran out):
+		// afterwards the process is free to exit
+		if dur < s.ExitWait-20*time.Millisecond && (hookCompleteAt.IsZero() || hookCompleteAt.After(tReturned.Add(25*time.Millisecond))) {
+			fail("returned-before-inflight-finished", "Shutdown returned after %v (ExitWaitTime %v) but the response of a connection accepted before the call was only complete %v later", dur.Round(time.Millisecond), s.ExitWait, hookCompleteAt.Sub(tReturned).Round(time.Millisecond))
+			return
+		}
 	}
 	lwg.Wait()
 	for i, b := range lateRes {
